@@ -143,6 +143,11 @@ func backendProp(b backendSpec, meaning string) propFunc {
 			c.runColVec(r, "shape.colvec", inPkgs("hlsl", "ir"))
 			r.floor("shape.colvec", 5)
 		}
+		if b.Name == "glsl" {
+			r.Clauses = append(r.Clauses, "self-delimiting expression text (E30): the GLSL writer composes expression text by substitution, so a format literal returned by a (string, error) function over an expression kind has no binary or ternary operator outside every pair of brackets")
+			c.runLooseFormat(r, "parens.looseformat", "glsl/internal/codegen", nil)
+			r.floor("parens.looseformat", 100)
+		}
 		if b.Name == "glsl" || b.Name == "hlsl" {
 			r.Clauses = append(r.Clauses, "bit-scan polyfills (E33): where a string literal spells min(K, firstbitlow/findLSB(x)), K - firstbithigh/findMSB(x) or ((ctz(x)+1) % K) - 1, K is 32, 31 and 33 respectively (countTrailingZeros(0) = 32, countLeadingZeros = 31 - msb)")
 			c.runBitscanWidth(r, "bitscan.width", inPkgs(b.Name))
